@@ -319,11 +319,39 @@ func c10Gen() *rapid.Generator[c10Case] {
 		for i := 0; i < nroots; i++ { // many roots: more than one block per worker
 			f = append(f, f[rapid.IntRange(0, len(f)-1).Draw(t, "copy")].Clone())
 		}
+		if rapid.IntRange(0, 7).Draw(t, "bigRoots") == 0 {
+			// a few roots whose rendered block exceeds common buffer sizes (4 KiB, 64 KiB)
+			f = nil
+			nb := rapid.IntRange(2, 5).Draw(t, "nbig")
+			for i := 0; i < nb; i++ {
+				sizes := []int{120, 200}
+				if thorough() {
+					sizes = []int{120, 300, 1500}
+				}
+				sz := rapid.SampledFrom(sizes).Draw(t, "bigSize")
+				r := &model.T{Name: fmt.Sprintf("big%d", i)}
+				cur := r
+				for j := 0; j < sz; j++ {
+					k := &model.T{Name: fmt.Sprintf("node-%d-%d-with-a-longish-name", i, j)}
+					cur.Kids = append(cur.Kids, k)
+					if j%7 == 3 {
+						cur = k
+					}
+					if j%31 == 0 {
+						cur = r
+					}
+				}
+				f = append(f, r)
+			}
+		}
 		if fsOp && hasDupRoots(f) {
 			uniqRoots(f)
 		}
 		sp := genSpelling(f.HeadingOK()).Draw(t, "sp")
 		c := c10Case{Op: op, Roots: len(f), Heading: sp.Heading, Origin: "well-formed"}
+		if len(f) > 0 && strings.HasPrefix(f[0].Name, "big") || len(f) > 0 && len(f[0].Name) > 3 && strings.Contains(f[0].Name, "big") {
+			c.Origin = "well-formed"
+		}
 		lines := model.SpellLines(f, sp)
 		switch rapid.IntRange(0, 9).Draw(t, "origin") {
 		case 0, 1:
@@ -359,6 +387,9 @@ func c10Gen() *rapid.Generator[c10Case] {
 			c.Pre = []ops.FSEntry{{Path: f[rapid.IntRange(0, len(f)-1).Draw(t, "which")].Name, Kind: "d"}}
 		}
 		c.Sched = genSched(t)
+		if len(c.Doc) > 8192 && c.Sched.WriterYieldUs > 20 {
+			c.Sched.WriterYieldUs = 20 // thousands of writes: keep the case cheap
+		}
 		return c
 	})
 }
@@ -370,6 +401,9 @@ func c10Record(col *collector, c c10Case, mres *ops.Result) {
 	}
 	if c.Roots >= 11 {
 		cl = append(cl, "roots>=11")
+	}
+	if len(c.Doc) > 8192 {
+		cl = append(cl, "doc>8KiB")
 	}
 	if c.Heading {
 		cl = append(cl, "heading-roots")
@@ -437,5 +471,25 @@ func TestC10Panel(t *testing.T) {
 			}
 		}
 	})
+	col.Exhaustive = true
+}
+
+// the fixed hostile inputs of C12, every operation, massive vs simple
+func TestC10Constants(t *testing.T) {
+	col := coll("C10", "constants")
+	col.Rule = fmt.Sprintf("%d fixed hostile inputs x every operation, massive vs simple", len(c12Constants))
+	for _, d := range c12Constants {
+		for _, op := range c10Ops {
+			c := c10Case{Doc: []byte(d), Op: op, Origin: "constant", Exts: []string{"b"}}
+			if k := c10Excluded(c); k != "" {
+				col.excluded(k)
+				continue
+			}
+			c10Record(col, c, nil)
+			if msg := c10Check(c); msg != "" {
+				violation(t, "C10", "c10", c, msg)
+			}
+		}
+	}
 	col.Exhaustive = true
 }
